@@ -9,6 +9,8 @@ import (
 	"fmt"
 
 	"github.com/BondMachineHQ/BondMachine/pkg/bondmachine"
+
+	"verif/harness/vlog"
 )
 
 type envResult struct {
@@ -20,6 +22,12 @@ type envResult struct {
 // runEnv simulates bm for at most maxTicks ticks (stopping early once every output has delivered
 // `want` values, when want > 0). input(port, k) is the k-th (0-based) value offered on a port.
 func runEnv(bm *bondmachine.Bondmachine, input func(port, k int) uint64, maxTicks, want int) (res envResult, err error) {
+	return runEnvTimed(bm, input, maxTicks, want, 0, 0)
+}
+
+// runEnvTimed is runEnv with a slower environment: it keeps valid high for hold more ticks after it
+// has seen received, and waits ackDelay ticks before it acknowledges an output (both legal).
+func runEnvTimed(bm *bondmachine.Bondmachine, input func(port, k int) uint64, maxTicks, want, hold, ackDelay int) (res envResult, err error) {
 	defer func() {
 		if e := recover(); e != nil {
 			err = fmt.Errorf("panic: %v", e)
@@ -35,6 +43,8 @@ func runEnv(bm *bondmachine.Bondmachine, input func(port, k int) uint64, maxTick
 	res.Outs = make([][]uint64, nout)
 	res.Consumed = make([]int, nin)
 	inPhase := make([]int, nin) // 0: offering (valid high), 1: withdrawn, waiting for recv to fall
+	inWait := make([]int, nin)
+	outWait := make([]int, nout)
 	for i := 0; i < nin; i++ {
 		vm.Inputs_regs[i] = regVal(rsize, input(i, 0))
 		vm.InputsValid[i] = true
@@ -48,6 +58,11 @@ func runEnv(bm *bondmachine.Bondmachine, input func(port, k int) uint64, maxTick
 			switch inPhase[i] {
 			case 0:
 				if vm.InputsRecv[i] {
+					if inWait[i] < hold {
+						inWait[i]++
+						break
+					}
+					inWait[i] = 0
 					vm.InputsValid[i] = false
 					res.Consumed[i]++
 					inPhase[i] = 1
@@ -63,10 +78,102 @@ func runEnv(bm *bondmachine.Bondmachine, input func(port, k int) uint64, maxTick
 		done := want > 0
 		for o := 0; o < nout; o++ {
 			if vm.OutputsValid[o] && !vm.OutputsRecv[o] {
-				res.Outs[o] = append(res.Outs[o], u64(vm.Outputs_regs[o]))
-				vm.OutputsRecv[o] = true
+				if outWait[o] < ackDelay {
+					outWait[o]++
+				} else {
+					outWait[o] = 0
+					res.Outs[o] = append(res.Outs[o], u64(vm.Outputs_regs[o]))
+					vm.OutputsRecv[o] = true
+				}
 			} else if !vm.OutputsValid[o] && vm.OutputsRecv[o] {
 				vm.OutputsRecv[o] = false
+			}
+			if len(res.Outs[o]) < want {
+				done = false
+			}
+		}
+		if done {
+			break
+		}
+	}
+	return res, nil
+}
+
+// runEnvHdl is the same environment around the generated top-level Verilog of bm, executed clock by
+// clock in the Verilog interpreter (ports iK / iK_valid / iK_received, oK / oK_valid / oK_received).
+func runEnvHdl(sim *vlog.Sim, nin, nout int, input func(port, k int) uint64, maxClocks, want, hold, ackDelay int) (res envResult, err error) {
+	res.Outs = make([][]uint64, nout)
+	res.Consumed = make([]int, nin)
+	for o := 0; o < nout; o++ {
+		sim.Set(fmt.Sprintf("o%d_received", o), 0)
+	}
+	for i := 0; i < nin; i++ {
+		sim.Set(fmt.Sprintf("i%d", i), 0)
+		sim.Set(fmt.Sprintf("i%d_valid", i), 0)
+	}
+	sim.Set("reset", 1)
+	if err := sim.Step("clk"); err != nil {
+		return res, err
+	}
+	sim.Set("reset", 0)
+	if err := powerUpZero(sim); err != nil {
+		return res, err
+	}
+	get := func(n string) uint64 { v, _ := sim.Get(n); return v }
+	inPhase := make([]int, nin)
+	inWait := make([]int, nin)
+	outWait := make([]int, nout)
+	outRecv := make([]bool, nout)
+	for i := 0; i < nin; i++ {
+		sim.Set(fmt.Sprintf("i%d", i), input(i, 0))
+		sim.Set(fmt.Sprintf("i%d_valid", i), 1)
+	}
+	for t := 0; t < maxClocks; t++ {
+		if err := sim.Step("clk"); err != nil {
+			return res, fmt.Errorf("clock %d: %v", t, err)
+		}
+		res.Ticks = t + 1
+		for i := 0; i < nin; i++ {
+			recv := get(fmt.Sprintf("i%d_received", i)) == 1
+			switch inPhase[i] {
+			case 0:
+				if recv {
+					if inWait[i] < hold {
+						inWait[i]++
+						break
+					}
+					inWait[i] = 0
+					sim.Set(fmt.Sprintf("i%d_valid", i), 0)
+					res.Consumed[i]++
+					inPhase[i] = 1
+				}
+			case 1:
+				if !recv {
+					sim.Set(fmt.Sprintf("i%d", i), input(i, res.Consumed[i]))
+					sim.Set(fmt.Sprintf("i%d_valid", i), 1)
+					inPhase[i] = 0
+				}
+			}
+		}
+		done := want > 0
+		for o := 0; o < nout; o++ {
+			valid := get(fmt.Sprintf("o%d_valid", o)) == 1
+			if valid && !outRecv[o] {
+				if outWait[o] < ackDelay {
+					outWait[o]++
+				} else {
+					outWait[o] = 0
+					v, known := sim.Get(fmt.Sprintf("o%d", o))
+					if !known {
+						v = 1<<63 + 0xbad
+					}
+					res.Outs[o] = append(res.Outs[o], v)
+					outRecv[o] = true
+					sim.Set(fmt.Sprintf("o%d_received", o), 1)
+				}
+			} else if !valid && outRecv[o] {
+				outRecv[o] = false
+				sim.Set(fmt.Sprintf("o%d_received", o), 0)
 			}
 			if len(res.Outs[o]) < want {
 				done = false
